@@ -845,7 +845,7 @@ class StoryMove(MosFile):
                 f"{self.__class__.__name__} error in {self.message_id} - no stories given"
             )
         if self.target_story is None:
-            target_story_index = len(ro.base_tag)
+            target_story = None
         else:
             target_story, target_story_index = find_child_by_id(parent=ro.base_tag, child_tag='story', id=self.target_story.id)
             if target_story is None:
@@ -857,7 +857,14 @@ class StoryMove(MosFile):
             raise MosMergeError(
                 f"{self.__class__.__name__} error in {self.message_id} - source story not found"
             )
+        if source_story is target_story:
+            return ro
         remove_node(parent=ro.base_tag, node=source_story)
+        if target_story is None:
+            target_story_index = len(ro.base_tag)
+        else:
+            # the target's index is only known once the source has been removed
+            target_story_index = list(ro.base_tag).index(target_story)
         insert_node(parent=ro.base_tag, node=source_story, index=target_story_index)
         return ro
 
